@@ -110,8 +110,12 @@ impl Resolver for WsResolver {
         if m.name == package_ref.req().name
           && m.version.as_ref().map(|v| package_ref.req().version_req.matches(v)).unwrap_or(true)
         {
-          let export_name = package_ref.sub_path().unwrap_or(".");
-          if let Some(export) = m.exports.get(export_name) {
+          let export_name = match package_ref.sub_path() {
+            Some(p) if !p.starts_with("./") => format!("./{}", p),
+            Some(p) => p.to_string(),
+            None => ".".to_string(),
+          };
+          if let Some(export) = m.exports.get(&export_name) {
             return Ok(m.base.join(export).unwrap());
           }
         }
@@ -930,6 +934,8 @@ pub struct GenCfg {
   pub fail_pct: usize,
   /// allow `export * from "jsr:@other/pkg"` (tracing of one package then reaches into another)
   pub cross_pkg_star: bool,
+  /// packages are local workspace members (file: URLs, fast check collects ALL diagnostics)
+  pub workspace: bool,
 }
 
 const PRIMS: &[&str] = &["string", "number", "boolean", "bigint", "unknown", "void", "null", "undefined"];
@@ -959,7 +965,7 @@ pub fn gen_world(rng: &mut Rng, cfg: &GenCfg) -> (FcWorld, GenInfo) {
   for p in 0..n_pkgs {
     let name = format!("@s/p{}", p);
     let version = "1.0.0".to_string();
-    let base = format!("https://jsr.io/{}/{}/", name, version);
+    let base = if cfg.workspace { format!("file:///ws/p{}/", p) } else { format!("https://jsr.io/{}/{}/", name, version) };
     let n_mods = rng.range(1, 4);
     let mut modules = vec!["mod.ts".to_string()];
     for k in 1..n_mods {
@@ -1320,9 +1326,19 @@ pub fn gen_world(rng: &mut Rng, cfg: &GenCfg) -> (FcWorld, GenInfo) {
   // emit files
   let mut root = String::new();
   for (p, pkg) in info.pkgs.iter().enumerate() {
-    world.add(&format!("https://jsr.io/{}/meta.json", pkg.name), &format!("{{\"versions\": {{ \"{}\": {{}} }} }}", pkg.version));
-    let exports: Vec<String> = pkg.exports.iter().map(|(k, v)| format!("\"{}\": \"{}\"", k, v)).collect();
-    world.add(&format!("https://jsr.io/{}/{}_meta.json", pkg.name, pkg.version), &format!("{{ \"exports\": {{ {} }} }}", exports.join(", ")));
+    if cfg.workspace {
+      world.workspace_fast_check = true;
+      world.workspace_members.push(WorkspaceMember {
+        base: ModuleSpecifier::parse(&pkg.base).unwrap(),
+        name: pkg.name.as_str().into(),
+        version: Some(deno_semver::Version::parse_standard(&pkg.version).unwrap()),
+        exports: pkg.exports.iter().cloned().collect(),
+      });
+    } else {
+      world.add(&format!("https://jsr.io/{}/meta.json", pkg.name), &format!("{{\"versions\": {{ \"{}\": {{}} }} }}", pkg.version));
+      let exports: Vec<String> = pkg.exports.iter().map(|(k, v)| format!("\"{}\": \"{}\"", k, v)).collect();
+      world.add(&format!("https://jsr.io/{}/{}_meta.json", pkg.name, pkg.version), &format!("{{ \"exports\": {{ {} }} }}", exports.join(", ")));
+    }
     for m in &mods[p] {
       let mut text = m.header.clone();
       for d in &m.decls {
@@ -1372,7 +1388,7 @@ fn gen_atom(rng: &mut Rng, types: &[String]) -> String {
 pub fn dump(args: &[String]) {
   let world = if args[0] == "gen" {
     let mut rng = Rng::for_case(args[1].parse().unwrap(), args[2].parse().unwrap());
-    let (w, _) = gen_world(&mut rng, &GenCfg { max_pkgs: 3, fail_pct: 12, cross_pkg_star: true });
+    let (w, _) = gen_world(&mut rng, &GenCfg { max_pkgs: 3, fail_pct: 12, cross_pkg_star: true, workspace: false });
     for (k, v) in &w.files {
       println!("# {}\n{}", k, v.0);
     }
@@ -1449,4 +1465,15 @@ pub fn probe() {
   show("probe2 v2 no cache", &run_fast_check(&w, None));
   show("probe2 v2 stale cache", &run_fast_check(&w, Some(&cache)));
   println!("{:?}", cache.log.borrow());
+}
+
+pub fn dump_gen12(seed: u64, k: u64) {
+  let mut rng = Rng::for_case(seed, k);
+  let _ = rng.chance(12);
+  let workspace = rng.chance(25);
+  let (w, _) = gen_world(&mut rng, &GenCfg { max_pkgs: 4, fail_pct: if workspace { 60 } else { 35 }, cross_pkg_star: false, workspace });
+  for (k, v) in &w.files {
+    println!("# {}\n{}", k, v.0);
+  }
+  dump_world(&w);
 }
